@@ -3,7 +3,7 @@
 //! Inputs are coefficient-domain integers; prepared operands are produced by the library's own
 //! prepare calls; results are projected back through the public inverse path (idft -> big).
 use crate::hal::{BACKENDS, Col, Opd};
-use crate::util::{ABuf, Rng, guarded};
+use crate::util::{ABuf, Rng, guarded, scr_call};
 use poulpy_cpu_avx::{FFT64Avx, NTT120Avx};
 use poulpy_cpu_ref::{FFT64Ref, NTT120Ref};
 use poulpy_hal::api::*;
@@ -42,6 +42,7 @@ pub struct DPlan {
     pub dr: Col,
     pub cst: Vec<i64>,
     pub uses_r: bool,
+    pub exact: bool,
 }
 
 fn gu(c: &Value, k: &str, d: u64) -> u64 {
@@ -165,10 +166,12 @@ pub fn make_dplan(c: &Value, seed: u64) -> DPlan {
         dr,
         cst,
         uses_r,
+        exact: c.get("scr").and_then(|v| v.as_str()) == Some("exact"),
     }
 }
 
 pub struct DOutcome {
+    pub scr: Vec<Value>,
     pub d: Vec<Vec<i128>>,
     pub frame_ok: bool,
     pub panic: String,
@@ -193,7 +196,7 @@ macro_rules! dft_backend {
                     Ok(m) => {
                         mods.insert(p.n, m);
                     }
-                    Err(e) => return DOutcome { d: vec![], frame_ok: true, panic: format!("Module::new({}): {e}", p.n) },
+                    Err(e) => return DOutcome { scr: vec![], d: vec![], frame_ok: true, panic: format!("Module::new({}): {e}", p.n) },
                 }
             }
             let m: &Module<BE> = &mods[&p.n];
@@ -220,6 +223,8 @@ macro_rules! dft_backend {
             let mut snap_res: Vec<u8> = vec![];
             let mut out: Vec<Vec<i128>> = vec![];
             let mut frame_ok = true;
+            let mut scr_log: Vec<Value> = Vec::new();
+            let ex = p.exact;
             let r = guarded(|| {
                 let scratch: &mut Scratch<BE> = <Scratch<BE> as ScratchFromBytes<BE>>::from_bytes(sbuf.win_mut());
                 // prepared inputs through the library's own forward path
@@ -281,34 +286,52 @@ macro_rules! dft_backend {
                             }
                         }
                         let mut pmat = m.vmp_pmat_alloc(p.rows, p.cin, p.cout, p.ms);
-                        m.vmp_prepare(&mut pmat, &mat, scratch);
+                        scr_call::<BE, _>(ex, m.vmp_prepare_tmp_bytes(p.rows, p.cin, p.cout, p.ms), f ^ 11, "vmp_prepare", &mut scr_log, |sc| m.vmp_prepare(&mut pmat, &mat, sc));
                         // every column of res is an output of the product
                         res_ranges = (0..p.rs).flat_map(|j| (0..p.rcols).map(move |cc| (j, cc))).map(|(j, cc)| {
                             let o = n * (j * p.rcols + cc) * sprep;
                             (o, o + n * sprep)
                         }).collect();
                         if op == "vmp_apply_dft" {
-                            m.vmp_apply_dft(&mut dft_mut::<BE>(&mut res), &a.vz(), &pmat, scratch)
+                            let decl = m.vmp_apply_dft_tmp_bytes(p.rs, p.asz, p.rows, p.cin, p.cout, p.ms);
+                            scr_call::<BE, _>(ex, decl, f ^ 12, op, &mut scr_log, |sc| m.vmp_apply_dft(&mut dft_mut::<BE>(&mut res), &a.vz(), &pmat, sc))
                         } else {
-                            m.vmp_apply_dft_to_dft(&mut dft_mut::<BE>(&mut res), &a_dft, &pmat, p.off, scratch)
+                            let decl = m.vmp_apply_dft_to_dft_tmp_bytes(p.rs, p.asz, p.rows, p.cin, p.cout, p.ms);
+                            scr_call::<BE, _>(ex, decl, f ^ 12, op, &mut scr_log, |sc| m.vmp_apply_dft_to_dft(&mut dft_mut::<BE>(&mut res), &a_dft, &pmat, p.off, sc))
                         }
                     }
                     "cnv_apply_dft" | "cnv_pairwise_apply_dft" | "cnv_apply_dft_self" => {
                         let mut left = m.cnv_pvec_left_alloc(p.acols, p.asz);
                         let mut right = if op == "cnv_apply_dft_self" { m.cnv_pvec_right_alloc(p.acols, p.asz) } else { m.cnv_pvec_right_alloc(p.bcols, p.bsz) };
                         if op == "cnv_apply_dft_self" {
-                            m.cnv_prepare_self(&mut left, &mut right, &a.vz(), mask, scratch);
+                            scr_call::<BE, _>(ex, m.cnv_prepare_self_tmp_bytes(p.asz, p.asz), f ^ 13, "cnv_prepare_self", &mut scr_log, |sc| {
+                                m.cnv_prepare_self(&mut left, &mut right, &a.vz(), mask, sc)
+                            });
                         } else {
-                            m.cnv_prepare_left(&mut left, &a.vz(), mask, scratch);
-                            m.cnv_prepare_right(&mut right, &b.vz(), mask, scratch);
+                            scr_call::<BE, _>(ex, m.cnv_prepare_left_tmp_bytes(p.asz, p.asz), f ^ 13, "cnv_prepare_left", &mut scr_log, |sc| {
+                                m.cnv_prepare_left(&mut left, &a.vz(), mask, sc)
+                            });
+                            scr_call::<BE, _>(ex, m.cnv_prepare_right_tmp_bytes(p.bsz, p.bsz), f ^ 14, "cnv_prepare_right", &mut scr_log, |sc| {
+                                m.cnv_prepare_right(&mut right, &b.vz(), mask, sc)
+                            });
                         }
                         if op == "cnv_pairwise_apply_dft" {
-                            m.cnv_pairwise_apply_dft(p.off, &mut dft_mut::<BE>(&mut res), rc, &left, &right, p.ci, p.cj, scratch)
+                            let decl = m.cnv_pairwise_apply_dft_tmp_bytes(p.off, p.rs, p.asz, p.bsz);
+                            scr_call::<BE, _>(ex, decl, f ^ 15, op, &mut scr_log, |sc| {
+                                m.cnv_pairwise_apply_dft(p.off, &mut dft_mut::<BE>(&mut res), rc, &left, &right, p.ci, p.cj, sc)
+                            })
                         } else {
-                            m.cnv_apply_dft(p.off, &mut dft_mut::<BE>(&mut res), rc, &left, ac, &right, if op == "cnv_apply_dft_self" { ac } else { bc }, scratch)
+                            let bsz = if op == "cnv_apply_dft_self" { p.asz } else { p.bsz };
+                            let decl = m.cnv_apply_dft_tmp_bytes(p.off, p.rs, p.asz, bsz);
+                            scr_call::<BE, _>(ex, decl, f ^ 15, op, &mut scr_log, |sc| {
+                                m.cnv_apply_dft(p.off, &mut dft_mut::<BE>(&mut res), rc, &left, ac, &right, if op == "cnv_apply_dft_self" { ac } else { bc }, sc)
+                            })
                         }
                     }
-                    "cnv_by_const_apply" => m.cnv_by_const_apply(p.off, &mut res.big_mut::<BE>(), rc, &a.vz(), ac, &p.cst, scratch),
+                    "cnv_by_const_apply" => {
+                        let decl = m.cnv_by_const_apply_tmp_bytes(p.off, p.rs, p.asz, p.cst.len());
+                        scr_call::<BE, _>(ex, decl, f ^ 15, op, &mut scr_log, |sc| m.cnv_by_const_apply(p.off, &mut res.big_mut::<BE>(), rc, &a.vz(), ac, &p.cst, sc))
+                    }
                     other => panic!("harness: unknown dft op {other}"),
                 }
                 // ---- projection of the result
@@ -317,7 +340,9 @@ macro_rules! dft_backend {
                         // res plays the role of the big result: reinterpret a fresh guarded big buffer
                         let mut rb = Opd::new(n, p.rcols, p.rs, p.rextra, p.rcol, sbig, f ^ 7);
                         let snap = rb.buf.snapshot();
-                        m.vec_znx_idft_apply(&mut rb.big_mut::<BE>(), rc, &a_dft, ac, scratch);
+                        scr_call::<BE, _>(ex, m.vec_znx_idft_apply_tmp_bytes(), f ^ 16, op, &mut scr_log, |sc| {
+                            m.vec_znx_idft_apply(&mut rb.big_mut::<BE>(), rc, &a_dft, ac, sc)
+                        });
                         frame_ok &= rb.buf.unchanged_except(&snap, &rb.col_ranges());
                         consumed_big = Some(rb.read());
                     }
@@ -351,7 +376,7 @@ macro_rules! dft_backend {
                     out = rb.read();
                 }
             });
-            DOutcome { d: out, frame_ok, panic: r.err().unwrap_or_default() }
+            DOutcome { scr: scr_log, d: out, frame_ok, panic: r.err().unwrap_or_default() }
         }
     };
 }
@@ -390,6 +415,7 @@ pub fn run_dcase(mods: &mut DMods, c: &Value, seed: u64) -> Value {
     let mut groups: Vec<(Vec<Value>, Vec<Vec<i128>>, String)> = Vec::new();
     let mut frame = true;
     let mut frame_bad: Vec<String> = vec![];
+    let mut scr_all: Vec<Value> = vec![];
     let only: Option<Vec<usize>> = c.get("backends").and_then(|v| v.as_array()).map(|a| a.iter().map(|x| x.as_u64().unwrap() as usize).collect());
     for be in 0..4 {
         if let Some(o) = &only {
@@ -399,6 +425,9 @@ pub fn run_dcase(mods: &mut DMods, c: &Value, seed: u64) -> Value {
         }
         for fill in 0..2u64 {
             let o = mods.exec(be, &p, fill + 1);
+            if p.exact {
+                scr_all.push(json!({"b": be, "f": fill, "calls": o.scr}));
+            }
             if !o.frame_ok {
                 frame = false;
                 frame_bad.push(format!("{}:{}", BACKENDS[be], fill));
@@ -437,7 +466,7 @@ pub fn run_dcase(mods: &mut DMods, c: &Value, seed: u64) -> Value {
         "shape": {"rcols": p.rcols, "rcol": p.rcol, "acols": p.acols, "acol": p.acol, "bcols": p.bcols, "bcol": p.bcol, "rextra": p.rextra},
         "ins": if agree_only { json!({}) } else { json!({"a": json!(p.am[p.acol]), "b": json!(p.bm[p.bcol]), "am": json!(p.am), "bm": json!(p.bm), "s": json!(p.ds),
                 "r": if p.uses_r { json!(p.dr) } else { json!([]) }, "m": json!(p.dm), "cst": json!(p.cst), "parts": json!([])}) },
-        "outs": outs, "frame": frame, "frame_bad": frame_bad,
+        "outs": outs, "frame": frame, "frame_bad": frame_bad, "scr": scr_all,
         "did": gu(c, "id", 0), "chunk": 0, "nchunks": 1, "alpha": json!([]),
         "chk": c.get("chk").cloned().unwrap_or(json!("full")),
     })
